@@ -188,6 +188,7 @@ type c10seq struct {
 	kind  string
 	now   time.Time
 	h     int64
+	esmOn bool // emergency shutdown of the auction's app is on
 }
 
 func (s *c10seq) acct(name string) sdk.AccAddress {
@@ -641,7 +642,32 @@ func (s *c10seq) tick(dt time.Duration) {
 			s.tr.Count("tick:limit-fill-closes")
 		}
 	}
-	s.tr.Line("dutch.tick", i64(s.now.Unix()), u(tc), b(ac), u(td), b(ad), lb, lbAfter, cl, s.state())
+	kind := "dutch.tick"
+	if s.esmOn {
+		// the app is under emergency shutdown: the iterator takes its ESM branch (auctions.go:153-182)
+		kind = "dutch.tickesm"
+		s.tr.Count("tickesm:" + s.kind)
+		if a, open := s.auction(); open {
+			if s.now.After(a.EndTime) {
+				s.tr.Count("tickesm:past-end:" + s.kind)
+			} else {
+				s.tr.Count("tickesm:inside-window:" + s.kind)
+			}
+		}
+	}
+	s.tr.Line(kind, i64(s.now.Unix()), u(tc), b(ac), u(td), b(ad), lb, lbAfter, cl, s.state())
+}
+
+// esm switches the emergency-shutdown status of the auction's app the way x/esm stores it (environment event, no trace line:
+// the next block's line kind says which branch of the iterator ran)
+func (s *c10seq) esm(on bool) {
+	s.f.app.EsmKeeper.SetESMStatus(s.ctx, esmtypes.ESMStatus{AppId: s.f.appID, Status: on})
+	s.esmOn = on
+	if on {
+		s.tr.Count("esm:on:" + s.kind)
+	} else {
+		s.tr.Count("esm:off")
+	}
 }
 
 func (s *c10seq) setColl(price uint64, active bool) {
@@ -937,7 +963,21 @@ func c10genCfg(f *c10fix, rng *Rng) c10cfg {
 func (s *c10seq) randomOps(rng *Rng, cfg c10cfg) {
 	bidders := []string{"b1", "b2", "b3", "b4"}
 	nops := 3 + rng.Intn(12)
+	// emergency shutdown of the app in a quarter of the sequences: switched on before some operation, sometimes off again later
+	esmAt, esmOff := -1, -1
+	if rng.Chance(25) {
+		esmAt = rng.Intn(nops)
+		if rng.Chance(30) {
+			esmOff = esmAt + 1 + rng.Intn(5)
+		}
+	}
 	for o := 0; o < nops; o++ {
+		if o == esmAt {
+			s.esm(true)
+		}
+		if o == esmOff {
+			s.esm(false)
+		}
 		a, open := s.auction()
 		if !open {
 			// a few ops after the close: nothing may move any more
@@ -1826,6 +1866,24 @@ func TestC10(t *testing.T) {
 	s.tick(9 * time.Second)
 	s.tick(1 * time.Second)
 	s.tick(1 * time.Second)
+	// ---- corpus 4: emergency shutdown, vault-initiated auction past the end of its window — TriggerEsm forwards what was collected
+	// but deletes nothing, so every further block forwards the same amount again, out of a stranger's limit deposit
+	cfg = base
+	s = c10start(t, f, tr, cfg)
+	s.bid("b1", sdk.NewInt(100000))
+	s.limit("b4", 30, sdk.NewInt(250000))
+	s.esm(true)
+	s.tick(61 * time.Minute) // TriggerEsm: 100 000 to the collector, auction and collateral stay
+	s.tick(1 * time.Minute)  // again: 100 000 of b4's deposit
+	s.tick(1 * time.Minute)  // again
+	s.tick(1 * time.Minute)  // 50 000 left: the transfer fails, the step is rolled back
+	if ok, _ := c10deliver(f.app, s.ctx, auctionsV2types.NewMsgCancelLimitBid(c10addr("b4").String(), s.p.coll.id, s.p.debt.id, sdk.NewInt(30))); ok {
+		tr.Count("corpus:esm-trigger:stranger-could-cancel")
+	} else {
+		tr.Count("corpus:esm-trigger:stranger-cannot-cancel")
+	}
+	s.bid("b2", sdk.NewInt(200000)) // the auction still takes bids
+	tr.Count("corpus:esm-trigger-repeats")
 
 	// ---- lend-initiated positions (fixture of the repository's own auctionsV2 tests)
 	fl := c10newLendFix(t)
@@ -1840,6 +1898,32 @@ func TestC10(t *testing.T) {
 		s.bid("b1", sdk.NewInt(10000000))
 		s.tick(20 * time.Minute)
 		s.bid("b2", sdk.NewInt(100000000))
+	}
+	// ---- emergency shutdown while a lend- / externally initiated auction is alive: inside the window the price keeps falling,
+	// past the end of the window the iterator leaves such an auction exactly as it is (no update, no restart) — seeded change s81
+	lcfg.kind, lcfg.pair, lcfg.amountOut, lcfg.dropTo = "lendkeeper", 0, sdk.NewInt(70000000), 1800000
+	if s = c10start(t, fl, tr, lcfg); s != nil {
+		s.esm(true)
+		s.tick(30 * time.Minute)
+		s.tick(30 * time.Minute) // exactly the end of the window
+		s.tick(30 * time.Minute) // past it
+		s.tick(60 * time.Minute)
+		s.bid("b1", sdk.NewInt(10000000))
+		s.esm(false)
+		s.tick(1 * time.Minute) // shutdown lifted: the ordinary iterator restarts the auction
+		s.bid("b2", sdk.NewInt(100000000))
+	}
+	cfg = base
+	cfg.kind, cfg.reserve, cfg.incentive = "external", 1000000, "0"
+	if s = c10start(t, f, tr, cfg); s != nil {
+		s.tick(10 * time.Minute)
+		s.esm(true)
+		s.tick(20 * time.Minute)
+		s.tick(31 * time.Minute) // past the end
+		s.tick(3 * time.Hour)    // beyond the time-to-zero of the price function
+		s.bid("b1", sdk.NewInt(300000))
+		s.tick(1 * time.Minute)
+		s.bid("b2", sdk.NewInt(5000000))
 	}
 	nl := scale(80, 3000)
 	for i := 0; i < nl; i++ {
